@@ -563,6 +563,15 @@ func exploreScenario(cfg *Config, sc *Scenario, nworkers int, deadline time.Time
 					}
 				}
 				res, err := wp.do(&job{Scenario: sc.Name, Prefix: pfx, MaxExecs: quantum, Deadline: deadline.UnixMilli()})
+				if err != nil {
+					// the worker process went away without a word (killed from outside, say): one retry of
+					// the same job on a fresh worker; a crash that belongs to the job happens again
+					fmt.Fprintf(os.Stderr, "NOTE %s scenario %s: %v on prefix %v, retrying on a fresh worker\n", cfg.Property, sc.Name, err, pfx)
+					if wp2, err2 := startWorker(); err2 == nil {
+						wp, pool[w] = wp2, wp2
+						res, err = wp.do(&job{Scenario: sc.Name, Prefix: pfx, MaxExecs: quantum, Deadline: deadline.UnixMilli()})
+					}
+				}
 				mu.Lock()
 				inflight--
 				if err != nil {
